@@ -1,4 +1,5 @@
 import Ruint.Model.Add
+import Ruint.Gen.WordsUint
 /-! Driver for C01: evaluates the model (`Ruint.Add.*` on limb lists) and the spec (ℕ arithmetic). -/
 open Ruint Ruint.Add
 
@@ -20,8 +21,9 @@ def handle (args : List String) (_impl : String) : String × String :=
     let x := parseHex as; let y := parseHex bs'
     let m := 2 ^ bits
     match op with
-    | "oadd" => (outF (overflowingAdd bits a b), toHex ((x + y) % m) ++ " " ++ boolStr (decide (m ≤ x + y)))
-    | "osub" => (outF (overflowingSub bits a b), toHex ((x + m - y) % m) ++ " " ++ boolStr (decide (x < y)))
+    -- model column of oadd / osub: the WHOLE methods as generated from src/add.rs (Props/C01: gen_overflowing_*_eq)
+    | "oadd" => (outF (Ruint.Gen.uint_overflowing_add (nlimbs bits + 1) bits (nlimbs bits) a b), toHex ((x + y) % m) ++ " " ++ boolStr (decide (m ≤ x + y)))
+    | "osub" => (outF (Ruint.Gen.uint_overflowing_sub (nlimbs bits + 1) bits (nlimbs bits) a b), toHex ((x + m - y) % m) ++ " " ++ boolStr (decide (x < y)))
     | "cadd" => (outO (checkedAdd bits a b), sOpt (decide (x + y < m)) (x + y))
     | "csub" => (outO (checkedSub bits a b), sOpt (decide (y ≤ x)) (x - y))
     | "sadd" => (out (saturatingAdd bits a b), toHex (min (x + y) (m - 1)))
